@@ -842,7 +842,7 @@ int _vnadata_load_npd(vnadata_internal_t *vdip, FILE *fp, const char *filename)
 		    "vnadata_set_z0_vector: %s", strerror(errno));
 	    goto out;
 	}
-    } else if (fz0) {
+    } else if (fz0 && z0_vector == NULL) {
 	if ((z0_vector = calloc(ports, sizeof(double complex))) == NULL) {
 	    _vnadata_error(vdip, VNAERR_SYSTEM,
 		    "calloc: %s", strerror(errno));
